@@ -527,6 +527,15 @@ func (tt *TermTable) Bin(op Op, a, b *Term) *Term {
 			return a
 		}
 	case OMul:
+		if w <= 64 && a.op == OSExt && b.op == OSExt {
+			// the product of sign-extended narrow values fits in the sum of their widths
+			wa, wb := a.args[0].sort.W, b.args[0].sort.W
+			if wa+wb < w {
+				nw := wa + wb
+				p := tt.mk(OMul, bv(nw), 0, 0, "", tt.SExt(a.args[0], nw-wa), tt.SExt(b.args[0], nw-wb))
+				return tt.SExt(p, w-nw)
+			}
+		}
 		if w <= 64 {
 			if a.IsConst() && a.cval == 1 {
 				return b
@@ -1163,6 +1172,12 @@ func (tt *TermTable) FUn(op Op, a *Term, p1 int) *Term {
 	return tt.mk(op, s, p1, 0, "", a)
 }
 func (tt *TermTable) FFromInt(a *Term, signed bool) *Term {
+	a = tt.rep(a)
+	if signed && a.op == OSExt {
+		a = a.args[0] // the value is the same; the conversion is cheaper from the narrow width
+	} else if a.op == OZExt {
+		a, signed = a.args[0], false
+	}
 	if a.IsConst() && a.sort.W <= 64 {
 		if signed {
 			return tt.FP(float64(signExt(a.cval, a.sort.W)))
